@@ -61,7 +61,7 @@ PROPS = {
                lambda c: sched.sched_sibling(c, ('feedback',)),
                lambda c: sched.sched_handover(c, (sched.FB,)),
                lambda c: sched.sched_pair(c, (sched.FB,)),
-               lambda c: sched.key_rebind(c, (sched.FB,)), lambda c: sched.empty_guard(c, (sched.FB,)), sched.result_index, interp.fb_epoch,
+               lambda c: sched.key_rebind(c, (sched.FB,)), lambda c: sched.empty_guard(c, (sched.FB,)), sched.result_index, layout.layout_state, interp.fb_epoch,
                lambda c: sched.sched_span(c, (sched.FB,)), sched.step_bound_fb,
                integrator.wa_forward,
                integrator.buf_rules, integrator.last_row, integrator.kernel_via],
@@ -90,7 +90,7 @@ PROPS = {
                lambda c: sched.sched_handover(c, (sched.FF,)),
                lambda c: sched.sched_span(c, (sched.FF,)),
                lambda c: sched.sched_pair(c, (sched.FF,)),
-               lambda c: sched.key_rebind(c, (sched.FF,)), lambda c: sched.empty_guard(c, (sched.FF,)), sched.result_index,
+               lambda c: sched.key_rebind(c, (sched.FF,)), lambda c: sched.empty_guard(c, (sched.FF,)), sched.result_index, layout.layout_state,
                sched.step_bound],
         decided=['the averaged readings are divided by the positive step handed over, never by a batch-dependent quantity that can vanish',
                  'documented defaults run', 'termination and strictly increasing output index '
